@@ -400,7 +400,7 @@ func (in *Interp) runPath(fn *ssa.Function, prefix []decision, baseCfg *HarnessC
 	in.mergeDepth = 0
 	in.noMerge = false
 	in.pathViolations = 0
-	in.sch, in.mus, in.wgs, in.syncMaps = nil, nil, nil, nil
+	in.sch, in.mus, in.wgs, in.syncMaps, in.pools = nil, nil, nil, nil, nil
 	in.st.idealHash, in.st.nodeSep = false, false
 	in.timers, in.now, in.timerFires, in.selectAny, in.realPools = nil, 0, 0, false, false
 	in.preempt, in.preemptions = 0, 0
